@@ -48,6 +48,7 @@ def run(ctx):
     _c08.armor_lemmas(ctx, real, tag="R-12d")
     from props import C02 as _c02
     _c02.verify_split_gpg(ctx, real)
+    _c02.verify_internal_parser(ctx, real)
     rng = random.Random(ctx.seed)
     configs = [("Dsc", real.Dsc, None), ("Changes", real.Changes, None), ("BuildInfo", real.BuildInfo, None),
                ("Release/apt-ftparchive", real.Release, "apt-ftparchive"), ("Release/dak", real.Release, "dak"),
